@@ -67,16 +67,16 @@ def setup_machine(root, inject=True):
     return model, mach
 
 
-def mk_ads(I, small=False):
+def mk_ads(I, small=False, empty=False):
     ci = I.model.cls("pygaps.core.adsorbate.Adsorbate")
-    props = {"formula": "F"} if small else {"formula": "F", "molar_mass": Num.atom("mm")}
+    props = {} if empty else {"formula": "F"} if small else {"formula": "F", "molar_mass": Num.atom("mm")}
     return Obj(cls=ci, label="adsorbate", attrs={"name": "ADS", "alias": ["ads"] if small else ["ads", "a2"], "_state": None,
                                                  "_backend_mode": None, "properties": props})
 
 
-def mk_mat(I, small=False):
+def mk_mat(I, small=False, empty=False):
     ci = I.model.cls("pygaps.core.material.Material")
-    props = {"density": Num.atom("d")} if small else {"density": Num.atom("d"), "tags": ["t1", "t2"]}
+    props = {} if empty else {"density": Num.atom("d")} if small else {"density": Num.atom("d"), "tags": ["t1", "t2"]}
     return Obj(cls=ci, label="material", attrs={"name": "MAT", "properties": props})
 
 
@@ -116,6 +116,9 @@ def variants(fi, I):
         for ow in (False, True):
             for ai in (True, False):
                 yield f"overwrite={ow},autoinsert_properties={ai}", (lambda mk=mk, ow=ow, ai=ai: ([mk(I)], {"db_path": P, "overwrite": ow, "autoinsert_properties": ai, "verbose": False}))
+        # an item without any property (overwriting with it must still clear the stored ones)
+        for ow in (False, True):
+            yield f"no-properties,overwrite={ow}", (lambda mk=mk, ow=ow: ([mk(I, empty=True)], {"db_path": P, "overwrite": ow, "verbose": False}))
     elif n in ("adsorbate_delete_db", "material_delete_db"):
         mk = mk_ads if n.startswith("adsorbate") else mk_mat
         yield "object", (lambda mk=mk: ([mk(I)], {"db_path": P, "verbose": False}))
